@@ -802,9 +802,27 @@ def iter_mutation_rule(ctx: Ctx, functions, rule: str = "ITERMUT") -> int:
 
         def same(x: str, y: str) -> bool:
             return x == y or find(x) == find(y)
+        all_alias = dict(alias)
+        binds = [(a_.lineno, a_.targets[0].id, a_) for a_ in ast.walk(fi.node)
+                 if isinstance(a_, ast.Assign) and len(a_.targets) == 1 and isinstance(a_.targets[0], ast.Name) and hasattr(a_, "lineno")]
         for lp in ast.walk(fi.node):
             if not isinstance(lp, ast.For):
                 continue
+            # the aliases in force when this loop starts: `a = b` counts if it is the last binding of `a` before the loop and `b` is not
+            # bound again in between (a name rebound to a fresh list at the top of every round is not the list of the previous round)
+            alias.clear()
+            last = {}
+            for ln, nm, a_ in sorted(binds, key=lambda t: t[0]):
+                if ln < lp.lineno:
+                    last[nm] = a_
+            for nm, a_ in last.items():
+                if isinstance(a_.value, (ast.Name, ast.Attribute)) and not (isinstance(a_.value, ast.Attribute) and a_.value.attr in ("time", "note", "channel", "velocity")):
+                    other = src(a_.value)
+                    if other in last and last[other].lineno > a_.lineno:
+                        continue
+                    ra, rb = find(nm), find(other)
+                    if ra != rb:
+                        alias[ra] = rb
             it = lp.iter
             through = None
             if isinstance(it, ast.Call) and isinstance(it.func, ast.Name) and it.func.id in ("enumerate", "reversed", "zip", "iter") and it.args:
